@@ -45,4 +45,17 @@ META = {
         ),
         "technique": "runtime oracle vs forward reference models on generated hits/records/peaks + numba bounds-check sanitizer",
     },
+    "C07": {
+        "level_text": (
+            "Chunk.split is executed for every sorted interval array of <= 4 rows on a small grid x every split "
+            "time (incl. outside the chunk) x allow_early_split and checked against a brute-force oracle "
+            "(adjacency, bit-identical concatenation, sides, outer bounds, CannotSplit iff a row straddles, early "
+            "split == latest clean cut); concatenate/merge for every partition incl. zero-duration chunks plus all "
+            "required rejections; the Rechunker as a stream monitor (conservation, contiguity, range, clean cuts, "
+            "no failure on valid input) on coarse-grid runs x partitions x target sizes 1..n+1; sub/super-run "
+            "annotations partitioned by split and restored by concatenate."
+        ),
+        "level_note": "trusted: oracles in vf/mon/chunklaws.py; rows of positive length; exhaustive only within the stated grid",
+        "technique": "runtime contracts (pre/post-condition oracles) on the real Chunk/Rechunker over exhaustive small-scope inputs; numba bounds-check pass on split_array",
+    },
 }
